@@ -14,6 +14,15 @@ CHECKS = {
     note="Bound: <=2 operators at w=3 (quick), <=2 at w in 1,2,3,4,8 and <=3 over the re-association sub-alphabet (thorough); 1 operator at widths 1..128; complexity threshold off and small. "
          "Sign-sensitive operators take operands whose every leaf and node was declared signed/unsigned. Trusted: amc/ref/bv.py, amc/gen/exprs.py.",
     design="DESIGN.md section 3, C01"),
+ "C11": dict(
+    category="model_checking",
+    technique="explicit-state exploration of all decode-call sequences (depth 3/4) over a per-ISA menu on the one real disassembler object; state = pending prefix instruction; reference = same call made first in a fresh process",
+    text="Per ISA mode every sequence of menu calls (valid, prefix+valid, lone prefixes, two prefixes, prefix+undecodable, undecodable, empty, too short, "
+         "inputs whose setup function raises with/without prefix) up to the depth is executed; after every call the pending instruction must be None and the outcome "
+         "(bytes, mnemonic, operands, type, misc) must equal the first-call outcome from a fresh process. Exceptions are transitions like any other.",
+    note="The reachable state space closes at the single state 'no pending instruction' when the property holds, so all |A|^3 (quick) / |A|^4 (thorough) sequences are run without de-duplication. "
+         "Raising inputs are taken from the C17 known-finding witnesses of the same ISA.",
+    design="DESIGN.md section 3, C11"),
  "C12": dict(
     category="model_checking",
     technique="bounded exhaustive enumeration of expression trees; width and comp-tiling invariants checked on every construction/simplify/eval/slice result",
